@@ -38,7 +38,7 @@ CHILD_KEYS = {
     "assignop": ("l", "r"), "assign": ("l", "r"), "index": ("b", "i"), "field": ("b",),
     "ref": ("x",), "cast": ("x",), "tup": ("xs",), "blk": ("b",), "if": ("c", "th", "el"),
     "letx": ("init",), "match": ("scrut", "arms"), "closure": ("body",), "loop": ("body",),
-    "break": ("v",), "ret": ("v",), "struct": ("fs",), "array": ("xs",), "repeat": ("x",),
+    "break": ("v",), "ret": ("v",), "struct": ("fs", "base"), "array": ("xs",), "repeat": ("x",),
     "for": ("iter", "body"), "block": ("stmts", "tail"), "let": ("init", "els"),
 }
 
